@@ -107,12 +107,13 @@ PROPS = {
         "assumptions": ["coordinates are dyadic so binary64 arithmetic is exact; with astronomically large repeat counts only the integer counts are compared"],
     },
     "C02": {
-        "lean_modules": ["StimModel.Props.C02", "StimModel.Core.FrameRel", "StimModel.Generated.FrameThms", "StimModel.Generated.GateThms", "StimModel.Props.GF2", "StimModel.Props.GF2c", "StimModel.Props.Record"],
+        "lean_modules": ["StimModel.Props.C02", "StimModel.Core.FrameRel", "StimModel.Generated.FrameThms", "StimModel.Generated.GateThms", "StimModel.Props.GF2", "StimModel.Props.GF2c", "StimModel.Props.Record", "StimModel.Props.RecordBatch"],
         "areas": [
             {"area": "gatetab", "n": 1, "extra": ["Frame"]},
             {"area": "fsim", "n": {"quick": 500, "thorough": 10000}, "replayable": True},
             {"area": "cli", "n": {"quick": 240, "thorough": 5000}, "extra": ["sample"]},
             {"area": "record", "n": {"quick": 600, "thorough": 20000}},
+            {"area": "recbatch", "n": {"quick": 300, "thorough": 6000}},
         ],
         "rule": "noisy generated circuits (every gate, noise channel incl. heralded and correlated ones with p in {0, 1/4, 1}, measurement-flip arguments, feedback, sweep-controlled gates, "
                 "REPEAT) and QEC-like circuits; per circuit 1..130 shots from FrameSimulator (3 widths) and 3..257 shots from sample_batch_measurements: every record must lie in the affine space "
@@ -338,7 +339,8 @@ PROPS = {
 _CLI_RULES = {
     "C02": "area cli: `stim sample` in-process (shots {1,2,5,64,70,256}, 6 formats, --skip_loop_folding, --skip_reference_sample, --shots/--sample, "
            "`--k v` and `--k=v`) with every decoded record sent to the record oracle and the bytes re-encoded by the Lean format model; "
-           "area record: random record/flush/lookback sequences on stim::MeasureRecord against Model/Record (equality)",
+           "area record: random record/flush/lookback sequences on stim::MeasureRecord against Model/Record (equality); area recbatch: the same for the frame simulator's "
+           "MeasureRecordBatch + MeasureRecordBatchWriter (bursts of up to 520 rows so that 256-row block writes happen, reference sample inversion, trimming, 3 word widths) against Model/RecordBatch",
     "C04": "area cli: `stim detect` (plain, --append_observables, --prepend_observables, --obs_out; shots up to 1100; 6 formats) judged by the record-free "
            "oracle `fsim dets`; `stim m2d` (6 input formats, --sweep, --skip_reference_sample, --ran_without_feedback, --append_observables / --obs_out) "
            "judged by the m2d oracle",
